@@ -38,7 +38,7 @@ def run(tier):
     common.build("plain")
     wd = common.workdir("c14")
     for cfgname in ("MC_ReaderUnit.cfg", "MC_ReaderStream.cfg"):
-        r = common.tlc("ReaderImpl", cfgname, workers=8, timeout=900)
+        r = common.tlc("ReaderImpl", cfgname if tier != "thorough" else common.cfg_variant(cfgname, wd, MaxCalls=5), workers=8, timeout=1800, heap="8g")
         ck.require_ok("ReaderImpl/" + cfgname, r); ck.add_tlc("ReaderImpl/" + cfgname + " (HistoryIndependence)", r, "3 chunks x 3 cells, reads 1..4 and chunk requests in any order, 4 calls")
     files = files_for(rnd)
     cases = []
